@@ -413,6 +413,9 @@ SECTION_PROPS["extract_argsgen"] = ["C07"]
 from extract_provgen import provgen_section  # noqa: E402  (M7 tie: ProvGen.lean / Properties/ProvTie.lean)
 EXTRA_SECTIONS.append(provgen_section)
 SECTION_PROPS["extract_provgen"] = ["C18"]
+from extract_state import state_section  # noqa: E402  (protocol-UPath branch of nodes._get_state: Lemmas/StateUPath.lean, C02 / C03)
+EXTRA_SECTIONS.append(state_section)
+SECTION_PROPS["extract_state"] = ["C02", "C03"]
 
 
 def main(write: bool = True) -> int:
